@@ -35,6 +35,9 @@ structure OffFacts where
   saturationDropsNotify : Bool
   /-- both replies are built with `create_error_response_like(&request, ..)` (request id and query) -/
   repliesCarryRequestId : Bool
+  /-- replies wait for room in the outbound queue: the reader `send(..).await`s the saturation reply, the
+  blocking thread `blocking_send`s the handler's / panic reply (a `try_send` would lose it on a full queue) -/
+  repliesWaitForQueue : Bool
   /-- `MiddlewarePipeline::execution` is `self.handler.execution()` -/
   executionForwards : Bool
   /-- `OffReaderHandler::execution` is `Execution::OffReader` and the `_blocking` registrars wrap with it -/
@@ -44,7 +47,8 @@ structure OffFacts where
 def specOffFacts : OffFacts :=
   { tryAcquire := true, saturationNeverWaits := true, permitHeldForRun := true, panicCaught := true,
     panicCode := specCodes.internalError, saturationCode := specCodes.resourceExhausted,
-    saturationDropsNotify := true, repliesCarryRequestId := true, executionForwards := true,
+    saturationDropsNotify := true, repliesCarryRequestId := true, repliesWaitForQueue := true,
+    executionForwards := true,
     blockingIsOffReader := true }
 
 /-- How a route was registered. -/
@@ -120,6 +124,11 @@ def effectiveOff (f : OffFacts) (a : Arrival) : Bool :=
 def push (s : St) (notify : Bool) (id ec : Nat) : St :=
   if notify then s else { s with outbound := s.outbound ++ [⟨id, ec⟩] }
 
+/-- A reply handed to the outbound queue by `spawn_off_reader`: if the source does not wait for room
+(`repliesWaitForQueue = false`) nothing can be promised about it — pessimistically, it is lost. -/
+def pushReply (f : OffFacts) (s : St) (notify : Bool) (id ec : Nat) : St :=
+  if f.repliesWaitForQueue then push s notify id ec else s
+
 /-- `spawn_blocking` of the handler; `took` = a permit was taken for it. -/
 def spawn (f : OffFacts) (s : St) (a : Arrival) (took : Bool) : St :=
   let held := took && f.permitHeldForRun
@@ -139,7 +148,7 @@ def readOne (f : OffFacts) (s : St) (a : Arrival) : St :=
       else if f.tryAcquire && f.saturationNeverWaits then
         let s1 := { s with reports := s.reports ++ [.saturation a.id] }
         if a.notify && f.saturationDropsNotify then s1
-        else push s1 false (if f.repliesCarryRequestId then a.id else 0) f.saturationCode
+        else pushReply f s1 false (if f.repliesCarryRequestId then a.id else 0) f.saturationCode
       else { s with readerBusy := some (.waitingSlot a) }
 
 /-- The reader works through the backlog until it gets stuck again or the backlog is empty. -/
@@ -161,11 +170,11 @@ def takeRun (id : Nat) : List Run → Option (Run × List Run)
 /-- What a handler's end puts on the outbound channel / reports. -/
 def finish (f : OffFacts) (s : St) (id : Nat) (notify : Bool) (k : ExitKind) : St :=
   match k with
-  | .ret => push s notify id 0
-  | .err c => push s notify id c
+  | .ret => pushReply f s notify id 0
+  | .err c => pushReply f s notify id c
   | .panic =>
     if f.panicCaught then
-      push { s with reports := s.reports ++ [.handlerPanic id] } notify (if f.repliesCarryRequestId then id else 0) f.panicCode
+      pushReply f { s with reports := s.reports ++ [.handlerPanic id] } notify (if f.repliesCarryRequestId then id else 0) f.panicCode
     else s
 
 def step (f : OffFacts) (s : St) : Ev → St
